@@ -489,6 +489,8 @@ func (s *scn) apply(st CStep) {
 		s.applyGroup(st)
 	case "relaytrust":
 		s.applyRelayTrust(st)
+	case "xhub":
+		s.applyXhub(st)
 	case "ruleop":
 		s.applyRuleOp(st)
 	case "eth":
